@@ -99,12 +99,20 @@ def run_shard(spec, rec):
                                  populated, rng, rec)
 
 
-def build_base(fam, impl, kind, populated, rng):
+def build_base(fam, impl, kind, populated, rng, none_only=False):
     cls = fam.cls(kind, impl)
     if kind in families.TREE_KINDS:
         harness.set_node_sizes(cls, 3, 3)
     c = cls()
-    if populated:
+    if none_only:
+        # the only stored key is None, which is never handed to a rich
+        # comparison: a key that cannot be ordered is not found out by
+        # comparing it with what is there
+        if kind in families.MAPPING_KINDS:
+            c[None] = rng.choice(fam.values(rng)[:2])
+        else:
+            c.add(None)
+    elif populated:
         flav = 'int' if fam.kc == 'O' else None
         uni = [k for k in fam.key_universe(rng, n=10, flavour=flav)
                if k is not None]
@@ -239,7 +247,12 @@ def run_case(fam, impl, kind, entry, pos, lab, datum, populated, rng, rec):
     if fam.kc == 'O' and pos == 'key' and isinstance(
             datum, (dict, complex, memoryview)):
         return      # accepted but not orderable (like NaN)
-    c = build_base(fam, impl, kind, populated and entry != 'setstate', rng)
+    none_only = (fam.kc == 'O' and pos == 'key' and isinstance(datum, Plain)
+                 and not entry.startswith('setstate') and rng.random() < .6)
+    c = build_base(fam, impl, kind, populated and entry != 'setstate', rng,
+                   none_only=none_only)
+    if none_only:
+        rec.ev('base-holds-only-None')
     before = harness.contents(c, is_mapping)
     present = set()
     try:
@@ -260,7 +273,7 @@ def run_case(fam, impl, kind, entry, pos, lab, datum, populated, rng, rec):
         ok = fam.val_ok(v)
     desc = dict(family=fam.name, impl=impl, kind=kind, entry=entry,
                 position=pos, datum_class=lab, datum=brief(datum, 80),
-                populated=populated)
+                populated=populated, none_only=none_only)
     rec.journal(repr(desc))
     is_index = isinstance(datum, Indexable) or (
         is_duck_number(datum) and pos == 'value' and fam.vc == 'F')
